@@ -44,7 +44,7 @@ from hio.help.doming import (RegDom, IceRegDom, TymeDom, IceTymeDom, registerify
 
 ID = "C28"
 LEVEL = "exploration"
-RULE = ("case = (class from a family of 19 registered data-object classes: flat/typed/nested 1-2 levels/list+dict fields, field-less marker classes "
+RULE = ("case = (class from a family of 25 registered data-object classes (6 with odd but legal field names - leading/double/lone underscore, trailing underscore, single letter, unicode, keyword-like, 120 chars - always sent with non-default values): flat/typed/nested 1-2 levels/list+dict fields, field-less marker classes "
         "nested 1-2 levels and next to non-empty ones, frozen classes holding containers and non-frozen objects; mutable and "
         "frozen, Reg and Tyme flavours) x field values. Part 1 enumerates, for every class and every field, every value of a 60-entry "
         "boundary table (ints at 2^7..2^64 edges, float extremes, unicode planes/controls/escapes, empty and nested containers) with "
@@ -64,8 +64,9 @@ TIMEOUT_S = {"quick": 200, "thorough": 1200}
 REQUIRE = {"roundtrips_judged": 20000, "nested_fields_checked": 5000, "roundtrips:json": 6000, "roundtrips:cbor": 6000,
            "roundtrips:mgpk": 6000, "non_ascii_strings": 1000, "frozen_class_roundtrips": 3000,
            "fieldless_nested_checked": 3000, "second_decodes_judged": 20000, "second_decodes_after_mutation": 8000,
-           "frozen_second_decodes_after_mutation": 3000, "containers_mutated_before_second_decode": 20000}
-EXHAUSTIVE = {"quick": "every (class, field, boundary value) of the 19-class family x 60-value table, in json, cbor and mgpk",
+           "frozen_second_decodes_after_mutation": 3000, "containers_mutated_before_second_decode": 20000,
+           "underscore_field_nondefault_roundtrips": 5000, "odd_named_field_nondefault_roundtrips": 3000}
+EXHAUSTIVE = {"quick": "every (class, field, boundary value) of the 25-class family x 60-value table, in json, cbor and mgpk",
               "thorough": "every (class, field, boundary value) and every (class, field pair, value pair) over a 14-value sub-table"}
 
 
@@ -254,10 +255,91 @@ class VfIceTymeHolder(IceTymeDom):
     tags: list = field(default_factory=list)
 
 
+# odd but legal field names: leading underscores (also the name-mangled `__x`, a lone `_`, and `_tyme` where the flavour has
+# no bookkeeping attribute of that name), trailing underscore, single letter, unicode identifier, keyword-like, very long.
+# Names that collide with the library's own attributes (_registry, _names, _asdict ..., and _tyme/_tymth/_now on the Tyme
+# flavours) are kept out.  Defaults are values no generator produces, so a dropped field can never hide behind its default.
+ODD_DEFAULT = -7777
+LONGNAME = "very_long_field_name_" + "x" * 100
+
+
+@registerify
+@dataclass
+class VfOdd(RegDom):
+    _rev: Any = ODD_DEFAULT
+    __x: Any = ODD_DEFAULT
+    x_: Any = ODD_DEFAULT
+    _tyme: Any = ODD_DEFAULT
+    _: Any = ODD_DEFAULT
+    q: Any = ODD_DEFAULT
+    ñame: Any = ODD_DEFAULT
+    class_: Any = ODD_DEFAULT
+    _flags: dict = field(default_factory=dict)
+    very_long_field_name_xxxxxxxxxxxxxxxxxxxxxxxxxxxxxxxxxxxxxxxxxxxxxxxxxxxxxxxxxxxxxxxxxxxxxxxxxxxxxxxxxxxxxxxxxxxxxxxxxxxxxxxxxxxxxxxxxxxxxxxx: Any = ODD_DEFAULT
+
+    def __hash__(self):
+        return hash(self.__class__.__name__)
+
+
+@registerify
+@dataclass(frozen=True)
+class VfIceOdd(IceRegDom):
+    _seq: Any = ODD_DEFAULT
+    __y: Any = ODD_DEFAULT
+    y_: Any = ODD_DEFAULT
+    _tymth: Any = ODD_DEFAULT
+    é: Any = ODD_DEFAULT
+    _tags: list = field(default_factory=list)
+
+
+@registerify
+@dataclass
+class VfOddOuter(RegDom):
+    _inner: VfOdd = None
+    odd: VfOdd = None
+    _ice: VfIceOdd = None
+    _note: Any = ODD_DEFAULT
+    plain: Any = None
+
+    def __hash__(self):
+        return hash(self.__class__.__name__)
+
+
+@registerify
+@dataclass(frozen=True)
+class VfIceOddOuter(IceRegDom):
+    _ice: VfIceOdd = None
+    ice: VfIceOdd = None
+    _outer: VfOddOuter = None
+    tag: Any = None
+
+
+@namify
+@registerify
+@dataclass
+class VfTymeOdd(TymeDom):
+    _rev: Any = ODD_DEFAULT
+    value: Any = None
+    _odd: VfOdd = None
+
+    def __hash__(self):
+        return hash(self.__class__.__name__)
+
+
+@namify
+@registerify
+@dataclass(frozen=True)
+class VfIceTymeOdd(IceTymeDom):
+    _rev: Any = ODD_DEFAULT
+    _ice: VfIceOdd = None
+
+
+ODDFAMILY = [VfOdd, VfIceOdd, VfOddOuter, VfIceOddOuter, VfTymeOdd, VfIceTymeOdd]
 FAMILY = [VfFlat, VfTyped, VfInner, VfMid, VfOuter, VfTyme, VfTymeOuter, VfIceFlat, VfIceMid, VfIceOuter, VfIceTyme,
-          VfUnit, VfIceUnit, VfWithUnit, VfUnitOuter, VfIceWithUnit, VfIceUnitOuter, VfIceHolder, VfIceTymeHolder]
+          VfUnit, VfIceUnit, VfWithUnit, VfUnitOuter, VfIceWithUnit, VfIceUnitOuter, VfIceHolder, VfIceTymeHolder] + ODDFAMILY
 BYNAME = {c.__name__: c for c in FAMILY}
-FROZEN = {VfIceFlat, VfIceMid, VfIceOuter, VfIceTyme, VfIceUnit, VfIceWithUnit, VfIceUnitOuter, VfIceHolder, VfIceTymeHolder}
+FROZEN = {VfIceFlat, VfIceMid, VfIceOuter, VfIceTyme, VfIceUnit, VfIceWithUnit, VfIceUnitOuter, VfIceHolder, VfIceTymeHolder,
+          VfIceOdd, VfIceOddOuter, VfIceTymeOdd}
 FIELDLESS = {VfUnit, VfIceUnit}
 
 
@@ -327,6 +409,9 @@ def rand_spec(rng, cls, depth):
             spec[f.name] = [rand_value(rng, depth - 1) for _ in range(rng.randint(0, 4))]
         elif f.type is dict:
             spec[f.name] = {rand_key(rng): rand_value(rng, depth - 1) for _ in range(rng.randint(0, 4))}
+        elif is_odd_name(f.name):
+            v = rand_value(rng, depth)
+            spec[f.name] = v if v not in (None, ODD_DEFAULT) else rng.choice(ODD_SCHED[:7])
         elif rng.random() < 0.9:
             spec[f.name] = rand_value(rng, depth)
     return spec
@@ -403,6 +488,43 @@ def typed_ok(cls, path, val):
     if t is dict:
         return isinstance(val, dict)
     return True
+
+
+ODD_SCHED = [1, "x", 2.5, True, [1, "_a"], {"_k": 1}, "é", 0, None, -1, "", False]
+
+
+def is_odd_name(name):
+    return name.startswith("_") or name.endswith("_") or len(name) == 1 or len(name) > 60 or not name.isascii()
+
+
+def fill_odd(cls, spec, k, skip, trail=()):
+    """fixed schedule: every odd-named plain field that the case does not edit itself gets a NON-default value"""
+    nested = dom_fields(cls)
+    for i, f in enumerate(fields(cls)):
+        here = list(trail + (f.name,))
+        if f.name in nested:
+            sub = spec.get(f.name)
+            if isinstance(sub, dict) and "@" in sub:
+                fill_odd(nested[f.name], sub["f"], k + i + 1, skip, trail + (f.name,))
+        elif is_odd_name(f.name) and here not in skip:
+            if f.type is dict:
+                spec[f.name] = {"_hidden": k, "n": [1, 2.5, None]}
+            elif f.type is list:
+                spec[f.name] = ["_", k]
+            else:
+                spec[f.name] = ODD_SCHED[(k + i) % len(ODD_SCHED)]
+
+
+def odd_nondefault(obj, acc=None):
+    """[underscore-named, other odd-named] counts of fields holding a non-default value, at any nesting depth"""
+    acc = [0, 0] if acc is None else acc
+    for f in fields(obj):
+        v = getattr(obj, f.name)
+        if is_dataclass(v) and not isinstance(v, type):
+            odd_nondefault(v, acc)
+        if is_odd_name(f.name) and not (v is None or v == ODD_DEFAULT or v == [] or v == {}):
+            acc[0 if f.name.startswith("_") else 1] += 1
+    return acc
 
 
 def put(spec, path, val):
@@ -557,6 +679,7 @@ def judge(cls, obj, ctx):
     if any(isinstance(getattr(obj, f.name), (list, dict)) and getattr(obj, f.name) for f in fields(cls)) or \
             any(isinstance(getattr(obj, n), c) for n, c in dom_fields(cls).items()):
         interesting = True
+    under, odd = odd_nondefault(obj)
     for fmt, asx, fromx in FORMATS:
         # "representable" is decided by the library itself: a plain dict the codec cannot round-trip is outside the domain
         try:
@@ -582,6 +705,11 @@ def judge(cls, obj, ctx):
             continue
         ctx.count("roundtrips_judged")
         ctx.count("roundtrips:" + fmt)
+        if under:
+            ctx.count("underscore_field_nondefault_roundtrips")
+            ctx.count("underscore_fields_nondefault_sent", under)
+        if odd:
+            ctx.count("odd_named_field_nondefault_roundtrips")
         if cls in FROZEN:
             ctx.count("frozen_class_roundtrips")
         if type(back) is not cls:
@@ -625,6 +753,8 @@ def run_case(case, ctx):
                 ctx.count("table_entries_skipped_container_typed_field")
                 return
             put(spec, path, val)
+        if cls in ODDFAMILY:
+            fill_odd(cls, spec, sum(case.get(x, 0) for x in ("k", "k1", "k2")), [p for p, _ in edits])
     obj = build(cls, spec)
     interesting = judge(cls, obj, ctx)
     ctx.seen("classes", cls.__name__)
